@@ -33,7 +33,7 @@ func familyByName(name string) *family {
 }
 
 func init() {
-	families = []*family{famBytes, famBytesEdge, famTokens, famTokensEdge, famRepeat, famDeepTable, famPadded, famBytes6, famUnicode, famFolds, famRunaway, famGoroutineFolds}
+	families = []*family{famBytes, famBytesEdge, famTokens, famTokensEdge, famRepeat, famDeepTable, famPadded, famBytes6, famUnicode, famFolds, famRunaway, famGoroutineFolds, famGenericGenerators}
 }
 
 // ---------------------------------------------------------------------------------------------
